@@ -1,5 +1,12 @@
-"""Meaning of length constraints (from the text of property C15)."""
+"""Meaning of length constraints, written from the text of property C15 (not from the code).
+
+Every function is a pure expression so that it can be translated to SMT and also run
+natively in replays.
+"""
 from typing import Optional
+
+from aas_core_codegen.infer_for_schema import _len
+from aas_core_codegen.parse import tree as parse_tree
 
 
 def admits(min_value: Optional[int], max_value: Optional[int], n: int) -> bool:
@@ -7,12 +14,83 @@ def admits(min_value: Optional[int], max_value: Optional[int], n: int) -> bool:
     return (min_value is None or min_value <= n) and (max_value is None or n <= max_value)
 
 
-def sat(c: object, n: int) -> bool:
-    """One recognised constraint holds for the length ``n``."""
-    from aas_core_codegen.infer_for_schema import _len
+def admits_c(c: object, n: int) -> bool:
+    """An optional LenConstraint admits ``n`` (no constraint admits everything)."""
+    return c is None or admits(c.min_value, c.max_value, n)
 
+
+def sat(c: object, n: int) -> bool:
+    """One recognised constraint (at least / at most / exactly ``value``) holds for the length ``n``."""
     return (
         (n >= c.value)
         if isinstance(c, _len._MinLength)
         else ((n <= c.value) if isinstance(c, _len._MaxLength) else (n == c.value))
+    )
+
+
+def opt_min(a: Optional[int], b: Optional[int]) -> Optional[int]:
+    return b if a is None else (a if b is None else (a if a <= b else b))
+
+
+def opt_max(a: Optional[int], b: Optional[int]) -> Optional[int]:
+    return b if a is None else (a if b is None else (a if a >= b else b))
+
+
+def is_len_call(e: object) -> bool:
+    """``len(x)`` with x a name or a member access."""
+    return (
+        isinstance(e, parse_tree.FunctionCall)
+        and e.name.identifier == "len"
+        and len(e.args) == 1
+        and isinstance(e.args[0], (parse_tree.Name, parse_tree.Member))
+    )
+
+
+def is_int_const(e: object) -> bool:
+    return isinstance(e, parse_tree.Constant) and isinstance(e.value, int)
+
+
+def len_on_left(node: object) -> bool:
+    return is_len_call(node.left) and is_int_const(node.right)
+
+
+def len_on_right(node: object) -> bool:
+    return is_int_const(node.left) and is_len_call(node.right)
+
+
+def is_len_comparison(node: object) -> bool:
+    """The invariant form the property calls "recognised": len(x) op c, or c op len(x)."""
+    return isinstance(node, parse_tree.Comparison) and (len_on_left(node) or len_on_right(node))
+
+
+def cmp_holds(op: parse_tree.Comparator, a: int, b: int) -> bool:
+    return (
+        (a < b) if op is parse_tree.Comparator.LT
+        else (a <= b) if op is parse_tree.Comparator.LE
+        else (a > b) if op is parse_tree.Comparator.GT
+        else (a >= b) if op is parse_tree.Comparator.GE
+        else (a == b) if op is parse_tree.Comparator.EQ
+        else (a != b)
+    )
+
+
+def comparison_holds(node: object, n: int) -> bool:
+    """Truth of the comparison when the measured length is ``n`` (Python semantics)."""
+    return (
+        cmp_holds(node.op, n, node.right.value)
+        if len_on_left(node)
+        else cmp_holds(node.op, node.left.value, n)
+    )
+
+
+def len_operand(node: object) -> object:
+    return node.left.args[0] if len_on_left(node) else node.right.args[0]
+
+
+def ranges_intersect(a: object, b: object) -> bool:
+    """Two LenConstraints admit a common length (over the integers)."""
+    return (
+        opt_max(a.min_value, b.min_value) is None
+        or opt_min(a.max_value, b.max_value) is None
+        or opt_max(a.min_value, b.min_value) <= opt_min(a.max_value, b.max_value)
     )
